@@ -164,6 +164,10 @@ TEXT_KW = {
     'fontweight': {'fontweight': 'light'},
     'weight': {'weight': 'light'},
     'rotation': {'rotation': 45},
+    # an explicit None asks matplotlib for its own default: it still overrides the stored attribute
+    'fontsize_none': {'fontsize': None},
+    'color_none': {'color': None},
+    'rotation_none': {'rotation': None},
 }
 
 
@@ -472,6 +476,10 @@ def _expect(kind, vis, kw):
 
 def _observe(kind, artist, attr, exp):
     from matplotlib.colors import to_rgba
+    if exp is None and kind == 'text':
+        # the caller asked for matplotlib's default: what a plain Text artist has
+        from matplotlib.text import Text
+        exp = getattr(Text(0, 0, 'x'), 'get_' + attr)()
     if attr in ('edgecolor', 'facecolor', 'markeredgecolor', 'color'):
         got = getattr(artist, 'get_' + attr)()
         return tuple(float(v) for v in to_rgba(got)), tuple(float(v) for v in to_rgba(exp))
